@@ -46,10 +46,21 @@ PROP = dict(
         "Lean SHA-256 validated against crypto/sha256 on every run",
     ],
     assumptions=[
-        "unforgeability of Ed25519 and collision-freedom of SHA-256 on the representations compared: 'verifies against no "
-        "other key' and 'stops verifying when any bit of the signed body changes' are reduced to them by "
-        "signed_digest_is_body + body_repr_injective + different_body_different_digest; they are assumptions, exercised with "
-        "real Ed25519 (foreign keys, bit flips) on every run",
+        "IDEAL SIGNATURE SCHEME (Sig.Ideal, lean/TongoProofs/Lemmas/SigIdeal.lean) - a local hypothesis of every negative "
+        "theorem: SigCorrect; SigUnforgeable (verify pk m s = true -> exists sk, pk = pub sk and s = sign sk m); SigBinds (a "
+        "signature determines its signer's public key and, on 32-byte digests, the digest). Real Ed25519 satisfies them only "
+        "up to negligible probability against bounded adversaries; the same negatives are exercised with crypto/ed25519 "
+        "(foreign keys, bit flips) on every run. The accept-all verifier does NOT satisfy them (Sig.accept_all_violates); a "
+        "toy scheme does (Sig.toy_ideal)",
+        "CollisionFree SHA-256 on the representations of ALL cells of the two body trees compared (Cell.reprs): 'stops "
+        "verifying when any bit changes' is verify_rejects_changed_body = signed_digest_is_body + tree-level injectivity "
+        "(Cell.hashO_tree_inj) + SigUnforgeable + SigBinds; both trees are trees of ordinary cells (Cell.wfOrd)",
+        "a changed bit INSIDE the signature: the mutated string is accepted only if it is itself a signature by a secret "
+        "key of the same public key over the (possibly changed) signed part (verified_was_signed) - in the ideal model "
+        "nothing more can be said, the key holder may have signed other content",
+        "Cell.hashO is Go's Cell.Hash on trees of level-0, non-pruned cells (signed_digest_is_cell_hash: the signed layout is "
+        "such a tree when the outgoing messages are); for outgoing messages containing pruned branches / higher-level cells "
+        "the digest theorems do not describe Go (never generated)",
         "signature correctness (premise of verify_own_key)",
         "tlb.Message decoding is modelled on the ext_in_msg_info fragment (other message kinds and state-inits with "
         "libraries answer 'unmodelled' and are never generated); exotic structure cells are outside the model; extended "
@@ -59,12 +70,24 @@ PROP = dict(
         "outgoing internal messages are modelled for wallet.Message, SimpleTransfer (without extra currencies) and "
         "ContractDeploy with cell arguments (TongoModel/WalletInt.lean); inside signed bodies they are arbitrary cells",
     ],
-    partial=[],
+    partial=[
+        "'verifies against no other key' and 'stops verifying if any bit changes' are proved CONDITIONALLY on the ideal "
+        "signature scheme and collision-freedom (verify_rejects_other_key(_highload), verify_rejects_changed_body, "
+        "built_message_rejects_changed_body, verified_was_signed): no unconditional or game-based statement",
+        "too_many_refused / limit_boundary are about the message COUNT handed to RawSendV2's guard (the payload marshalers' "
+        "own limits are separate conjuncts); C14Tlb ties the v3 / v4 / SignedMsgBody / W5Actions descriptors only",
+    ],
     level_text="Theorems for all inputs about the Lean model: for all seven sending versions the builders return written-out layouts "
                "that fit a cell (highload: the dictionary with keys 0..n-1 always builds, n <= 254); the digest signed and the digest verified are the representation hash of exactly the cell "
                "holding ids, expiry, seqno, [op] and the messages; the wallet's own key verifies (signature correctness "
                "assumed); decoding the built external message returns the same ids, seqno, expiry and messages with modes in "
-               "order (highload: through the C05 dictionary theorems on the shared Hashmap model); a requested message with code and data is "
+               "order (highload: through the C05 dictionary theorems on the shared Hashmap model); UNDER the ideal signature scheme Sig.Ideal and "
+               "CollisionFree SHA-256 on the cells of the two trees: the built message of every version (signature in front, "
+               "or in the last 512 bits for v5; highload included) is rejected for every other 32-byte key "
+               "(verify_rejects_other_key, _highload) and the signature re-attached to ANY different tree of ordinary cells - a bit, a "
+               "ref or any cell at any depth changed - is rejected under the wallet's own key (verify_rejects_changed_body); "
+               "whatever verifies was signed by a secret key of that public key (verified_was_signed); the accept-all verifier "
+               "is excluded by the hypotheses, a toy ideal scheme instantiates them; a requested message with code and data is "
                "marshalled without overflow and read back with exactly that code and data, both present, no library "
                "(carried_init_is_requested), no init without both (no_init_without_code_and_data), a ContractDeploy is addressed to the hash of the "
                "state init it carries (deploy_address_is_carried_init_hash); the batch guard accepts every size up to and including the version's maximum and "
@@ -73,8 +96,8 @@ PROP = dict(
                "defects found by the check (empty highload payload undecodable, v5 beta unverifiable) are repaired in the "
                "code; their negations on the old model are theorems. The model is tied to the Go code by bit-exact "
                "correspondence on every run, including all 7 versions with up to 255 messages and real Ed25519.",
-    level_note="trusted: Lean kernel, harness, validated SHA-256; assumptions: Ed25519 unforgeability/correctness, SHA-256 "
-               "collision-freedom",
+    level_note="trusted: Lean kernel, harness, validated SHA-256; IDEALISATIONS (hypotheses of the negative theorems): ideal "
+               "signature scheme (correct, unforgeable, binding), SHA-256 collision-freedom",
     technique="functional model with explicit builder/reader monads, layout lemmas, append/bit-list injectivity, "
               "differential correspondence with real crypto, direct property oracles",
 )
